@@ -47,14 +47,14 @@ Rbad == [Seg("R", "{z: /(/}", <<"z">>, 0, <<BndRe("z", "(")>>) EXCEPT !.bad = TR
 Se == EmptySeg
 
 AdmOf(t) == CASE t = "{r: /[ab]/}" -> {"a", "b"} [] t = "{s: /a/}" -> {"a"} [] OTHER -> {}
-Atoms == {"a", "b", "", "?a"}
+Atoms == {"a", "b", "", "?a", "{x}"}
 RegexTexts == {"{r: /[ab]/}", "{s: /a/}"}
 MOrc == [adm |-> { <<t, a>> : t \in RegexTexts, a \in Atoms } \cap { x \in RegexTexts \X Atoms : x[2] \in AdmOf(x[1]) },
          splits |-> { <<x[1], x[2], <<x[2]>>>> : x \in { y \in RegexTexts \X Atoms : y[2] \in AdmOf(y[1]) } }]
 
 SegU == CASE Family = "prio" -> {Sa, Sb, R1, Px, Py, Am, An}
           [] Family = "reg"  -> {Sa, R1, Px, Py, Am, An, Rxx, Rbad, Se}
-          [] Family = "hdr"  -> {Sa, Sb, Px}
+          [] Family = "hdr"  -> {Sa, Px}
 MethodsU == CASE Family = "hdr" -> {"GET", "POST"} [] OTHER -> {"GET"}
 
 MkRoute(s, o, g) == [segs |-> [j \in 1..Len(s) |-> IF j \in o THEN [s[j] EXCEPT !.opt = TRUE] ELSE s[j]], gram |-> g]
@@ -67,11 +67,13 @@ RouteU ==
     [] OTHER -> UNION { { MkRoute(s, {}, TRUE), MkRoute(s, {Len(s)}, TRUE) } : s \in SegSeqs }
 
 \* request paths: every sequence of 1..4 atoms, in a fixed order (shorter first)
-AtomSeq == IF Family = "hdr" THEN <<"a", "?a", "">> ELSE <<"a", "b", "">>
+\* the "hdr" family also requests path segments that are route SYNTAX ("?a", "{x}"): a path spelled like a route text
+AtomSeq == IF Family = "hdr" THEN <<"a", "?a", "{x}", "">> ELSE <<"a", "b", "">>
+NA == Len(AtomSeq)
 RECURSIVE PathsLen(_)
 PathsLen(n) == IF n = 0 THEN << <<>> >>
                ELSE LET prev == PathsLen(n - 1)
-                    IN [k \in 1..(Len(prev) * 3) |-> Append(prev[((k - 1) \div 3) + 1], AtomSeq[((k - 1) % 3) + 1])]
+                    IN [k \in 1..(Len(prev) * NA) |-> Append(prev[((k - 1) \div NA) + 1], AtomSeq[((k - 1) % NA) + 1])]
 MaxPath == IF Family = "hdr" THEN 3 ELSE 4
 AllPathSeq == IF MaxPath = 3 THEN PathsLen(1) \o PathsLen(2) \o PathsLen(3)
               ELSE PathsLen(1) \o PathsLen(2) \o PathsLen(3) \o PathsLen(4)
@@ -81,9 +83,10 @@ PathSeq == SelectSeq(AllPathSeq, LAMBDA p : Len(p) = 1 \/ p[1] # "")
 LeadU == IF Family = "hdr" THEN {1, 2} ELSE {1}
 
 \* header universe for the "hdr" family: one header K, expression "v" (loose match)
-HdrSpecs == { <<>>, <<[name |-> "K", expr |-> "v"]>>, <<[name |-> "K", expr |-> "^w$"]>> }
+\* expression "" is the documented presence check: any NON-EMPTY value
+HdrSpecs == { <<>>, <<[name |-> "K", expr |-> "v"]>>, <<[name |-> "K", expr |-> "^w$"]>>, <<[name |-> "K", expr |-> ""]>> }
 ReqHdrs == { [K |-> ""], [K |-> "v"], [K |-> "w"] }
-MHOrc == { <<"v", "v">>, <<"^w$", "w">> }
+MHOrc == { <<"v", "v">>, <<"^w$", "w">>, <<"", "v">>, <<"", "w">>, <<"", "">> }
 
 \* ------------------------------------------------------------ state
 VARIABLES H,        \* history of registrations: [m, r, ok, hdr, call]
